@@ -26,7 +26,7 @@ def scenario(rng, i):
     la = rng.choice([0, 0, 1, 2])
     workers = rng.choice([1, 1, 2])
     if has_expect:
-        split = rng.choice(["one", "headbody", "joinheads"])
+        split = rng.choice(["one", "headbody", "joinheads", "bodyhead"])
         waits = tuple(r["k"] for r in reqs if r["kind"] == "expect") if split != "one" and rng.random() < 0.6 else ()
         body_in_two = (not waits) and rng.random() < 0.5
         part_with_head = bool(waits) and split == "joinheads" and rng.random() < 0.5
